@@ -24,6 +24,7 @@ import (
 	"github.com/mdlayher/corerad/internal/system"
 	"github.com/mdlayher/corerad/internal/verifh"
 	"github.com/mdlayher/metricslite"
+	"github.com/mdlayher/ndp"
 )
 
 func faultErr(kind string) error {
@@ -38,6 +39,27 @@ func faultErr(kind string) error {
 	default:
 		return errors.New("verif: plain failure")
 	}
+}
+
+// tdFailPlugin is a plugin whose Apply fails while *fail is set (the address dump behind a wildcard
+// failing at the moment an RA is generated); it records the virtual instant of the failure.
+type tdFailPlugin struct {
+	plugin.MTU
+	mu     *sync.Mutex
+	fail   *bool
+	failAt *int64
+}
+
+func (p *tdFailPlugin) Prepare(*net.Interface) error { return nil }
+func (p *tdFailPlugin) Apply(*ndp.RouterAdvertisement) error {
+	p.mu.Lock()
+	defer p.mu.Unlock()
+	if *p.fail {
+		*p.fail = false
+		*p.failAt = vNow()
+		return errors.New("verif: failed to list addresses")
+	}
+	return nil
 }
 
 type tdResult struct {
@@ -71,6 +93,10 @@ func runTeardown(t *testing.T, monitor bool, fault string, flood int, busy time.
 		state.forwarding["v0"] = true
 		cfg := config.Interface{Name: "v0", Advertise: !monitor, Monitor: monitor, MinInterval: 200 * time.Second, MaxInterval: 600 * time.Second,
 			HopLimit: 64, DefaultLifetime: 1800 * time.Second, Plugins: []plugin.Plugin{&plugin.LLA{}}}
+		var buildFail bool
+		if fault == "FBuildFail" {
+			cfg.Plugins = append(cfg.Plugins, &tdFailPlugin{mu: &mu, fail: &buildFail, failAt: &failAt})
+		}
 		mm := NewMetrics(metricslite.NewMemory(), "test", time.Time{}, state, []config.Interface{cfg})
 		cctx := NewContext(log.New(io.Discard, "", 0), mm, state)
 		var both sync.WaitGroup
@@ -223,6 +249,24 @@ func runTeardown(t *testing.T, monitor bool, fault string, flood int, busy time.
 			mu.Lock()
 			faultAt = failAt
 			mu.Unlock()
+		case "FBuildFail":
+			mu.Lock()
+			buildFail = true
+			mu.Unlock()
+			old.readC <- rs("fe80::2")
+			// the RA is generated (and fails to) when the answer's random delay has elapsed
+			for i := 0; i < 600; i++ {
+				time.Sleep(time.Millisecond)
+				mu.Lock()
+				f := buildFail
+				mu.Unlock()
+				if !f {
+					break
+				}
+			}
+			mu.Lock()
+			faultAt = failAt
+			mu.Unlock()
 		case "FLink":
 			watchC <- netstate.LinkDown
 			faultAt = vNow()
@@ -309,10 +353,10 @@ func TestVerifC10TD(t *testing.T) {
 	if verifh.Thorough() {
 		floods = []int{0, 1, 5, 15, 16, 17, 18, 40, 100}
 	}
-	faults := []string{"FReadSyscall", "FReadPerm", "FReadOther", "FTimeouts5", "FWriteSyscall", "FWrite2Syscall", "FWritePendSyscall", "FWritePerm", "FWriteOther", "FLink", "FWatchClosed"}
+	faults := []string{"FReadSyscall", "FReadPerm", "FReadOther", "FTimeouts5", "FWriteSyscall", "FWrite2Syscall", "FWritePendSyscall", "FWritePerm", "FWriteOther", "FBuildFail", "FLink", "FWatchClosed"}
 	for _, mon := range []bool{false, true} {
 		for _, f := range faults {
-			if mon && len(f) > 6 && f[:6] == "FWrite" {
+			if mon && (f == "FBuildFail" || len(f) > 6 && f[:6] == "FWrite") {
 				continue // a monitor never transmits
 			}
 			for _, fl := range floods {
